@@ -25,6 +25,8 @@ import (
 type Engine struct {
 	i           *interpreter
 	TraceEvents bool
+	SharedCells map[*value]string
+	cellIDs     map[*value]int
 	Events      []SyncEvent
 	Steps       int64
 	StepLimit   int64
@@ -324,7 +326,7 @@ func init() {
 		"(*sync.RWMutex).Unlock":      func(fr *frame, a []value) value { theEngine.noteMutex(fr, "unlock", a[0]); return nil },
 		"(*sync.RWMutex).RLock":       func(fr *frame, a []value) value { theEngine.noteMutex(fr, "rlock", a[0]); return nil },
 		"(*sync.RWMutex).RUnlock":     func(fr *frame, a []value) value { theEngine.noteMutex(fr, "runlock", a[0]); return nil },
-		"encoding/json.Unmarshal":     func(fr *frame, a []value) value { panic("unsupported: encoding/json (reflection)") },
+		"encoding/json.Unmarshal":     extJSONUnmarshal,
 		"encoding/json.Marshal":       func(fr *frame, a []value) value { panic("unsupported: encoding/json (reflection)") },
 		"encoding/json.MarshalIndent": func(fr *frame, a []value) value { panic("unsupported: encoding/json (reflection)") },
 		"(*sync.Mutex).Lock":          func(fr *frame, a []value) value { theEngine.noteMutex(fr, "lock", a[0]); return nil },
